@@ -19,6 +19,7 @@ import NemoVerif.Lemmas.GroupCoreVMEvent
 import NemoVerif.Lemmas.GroupCoreVMPick
 import NemoVerif.Lemmas.GroupCoreVMLoop
 import NemoVerif.Lemmas.GroupCoreVMRun
+import NemoVerif.Lemmas.GroupCoreVMStart
 namespace NemoVerif.C07
 open NemoVerif NemoVerif.Dnf NemoVerif.GroupExpand NemoVerif.GroupVM
 
@@ -448,6 +449,38 @@ theorem groupvm_is_corevm_partial_and_run (fuel : Nat) (f : CoreIndex.FUid) (x :
   refine ⟨s', _, hs', fun k => ?_⟩
   have := run_spec [remMs ms] es [] k
   simpa [remaining_nil] using this
+
+/-- **groupvm_is_corevm_partial (a pure and-group from its first element to completion, every event sequence).**  The root head is the
+    only head of the instance, ACTIVE on `CatchPatternFailure; ForkHead mu [l_1 … l_n]`, and the program has the and-template behind it
+    (labels followed by `match <plain event>; goto l`, at the end label `WaitForHeads n; MergeHeads mu`).  CoreVM's `slide` forks the
+    member heads, they are advanced onto their match elements, and for EVERY event sequence `es` the slide-level driver hands the root
+    head back exactly as `markers (andOf c) es` says — the very object of `group_completes_at_first_sat`: at the first event after
+    which every atom of the group has been received, and never again. -/
+theorem groupvm_is_corevm_partial_and_group (fuel : Nat) (s : CoreVM.VM) (f : CoreIndex.FUid) (h : CoreIndex.HUid) (i : CoreIndex.Inst)
+    (x : CoreVM.InstX) (cfg : CoreVM.FlowCfg) (hd : CoreIndex.Head)
+    (fl mu l : String) (lps : List (String × Nat)) (c : List Nat) (pe : Nat) (a0 : CoreVM.HeadX)
+    (H : CoreVM.HeadAt s f h i x cfg hd) (hact : hd.status = .active) (hlis : i.status.listening = true)
+    (hcatch : cfg.elements[hd.pos]! = .catchFail (some fl)) (hsz : hd.pos + 1 < cfg.elements.size)
+    (hfork : cfg.elements[hd.pos + 1]! = .fork mu (lps.map (·.1)))
+    (hl : ∀ lp ∈ lps, cfg.label lp.1 = some lp.2 ∧ lp.2 ≠ 0 ∧ CoreVM.NotMatchAt cfg lp.2)
+    (hnews : ∀ lp ∈ lps, lp.2 + 1 < cfg.elements.size ∧ ∃ spec b n, cfg.elements[lp.2 + 1]! = .matchOp spec b ∧ CoreVM.PlainSpec spec n)
+    (hroot : CoreVM.hview i = [(h, hd.pos, CoreIndex.HeadStatus.active)])
+    (hfresh : ∀ m, m > s.r.nextUid → CoreVM.uidOf m ∉ i.headUids) (hown : x.ctxOwner = none)
+    (ha0 : OMap.lookup (f, h) s.r.hx = some a0) (ha0c : a0.childHeadUids = [])
+    (hfx0 : ∀ m, m > s.r.nextUid → OMap.lookup (f, CoreVM.uidOf m) s.r.hx = none)
+    (hmu : ∀ m, CoreVM.uidOf m ≠ mu)
+    (C : CoreVM.ClauseShape cfg l mu pe lps.length)
+    (S : ∀ lp ∈ lps, cfg.elements[lp.2 + 1 + 1]! = .goto (.lit (.bool true)) l ∧ lp.2 + 1 + 1 < pe + 1)
+    (hfp : hd.pos + 1 ≠ pe + 2) (hc : c.length = lps.length) (hcne : c ≠ []) (es : List Nat) :
+    ∃ s1 s2 s3, CoreVM.slide (fuel + 2) f h s = .ok (CoreVM.newKeys f s.r.nextUid lps.length) s1 ∧
+      CoreVM.runMembers (fuel + 1) f ((CoreVM.newKeys f s.r.nextUid lps.length).map (·.2)) s1 = .ok () s2 ∧
+      CoreVM.andDriver fuel f ((CoreVM.newsOf s.r.nextUid (lps.map (·.2))).map fun q => (q.1, q.2 + 1)) lps.length
+        (CoreVM.allAtMatch c) false es s2 = .ok (markers (andOf c) es) s3 := by
+  obtain ⟨s1, s2, s3, h1, h2, h3⟩ := CoreVM.and_group_from_start fuel s f h i x cfg hd fl mu l lps c pe a0 H hact hlis hcatch hsz hfork hl
+    hnews hroot hfresh hown ha0 ha0c hfx0 hmu C S hfp hc hcne es
+  refine ⟨s1, s2, s3, h1, h2, ?_⟩
+  rw [h3]
+  simp only [markers, normalize_clause_fixed, toDnf_ofDnf, Dnf.init]
 
 /-! ## the expanded element list -/
 
@@ -911,5 +944,47 @@ example (es : List Nat) :=
     { hi := rfl, hx := rfl, hc := rfl } rfl rfl
     (by intro m hm; simp at hm; rcases hm with rfl | rfl <;> exact Or.inl rfl) (by decide) rfl rfl
     (by intro c hc; simp at hc; rcases hc with rfl | rfl <;> rfl)
+
+theorem uidOf_ne_u (m : Nat) : CoreVM.uidOf m ≠ "u" := by
+  intro e
+  have := congrArg String.toList e
+  simp only [CoreVM.uidOf, toString, String.toList_append] at this
+  have h2 := congrArg List.length this
+  simp at h2
+
+/-- the root head of `match E0() and E1()` on `CatchPatternFailure`, with its HeadX record -/
+def exVMRoot2 : CoreVM.VM :=
+  { ixs := exIxsRoot, r := { prog := { flows := [exCfgAnd] }, fx := [("m", exX)], hx := [(("m", "h0"), {})] } }
+
+-- non-vacuity of `groupvm_is_corevm_partial_and_group`: ANY event sequence
+example (es : List Nat) :=
+  groupvm_is_corevm_partial_and_group 1 exVMRoot2 "m" "h0" exInstRoot exX exCfgAnd { uid := "h0", pos := 1, status := .active, elem := none }
+    "f" "u" "e" [("l0", 3), ("l1", 6)] [0, 1] 13 {}
+    { hi := rfl, hx := rfl, hc := rfl, hh := rfl, hlt := by decide, hst := by decide } rfl rfl rfl (by decide) rfl
+    (by
+      intro lp hlp
+      simp at hlp
+      rcases hlp with rfl | rfl
+      · exact ⟨rfl, by decide, CoreVM.notMatchAt_of _ _ _ (by decide) rfl rfl⟩
+      · exact ⟨rfl, by decide, CoreVM.notMatchAt_of _ _ _ (by decide) rfl rfl⟩)
+    (by
+      intro lp hlp
+      simp at hlp
+      rcases hlp with rfl | rfl
+      · exact ⟨by decide, exSpec "E0", false, "E0", rfl, rfl, rfl, rfl⟩
+      · exact ⟨by decide, exSpec "E1", false, "E1", rfl, rfl, rfl, rfl⟩)
+    rfl
+    (by intro m _ hm; simp [exInstRoot, CoreIndex.Inst.headUids] at hm; exact uidOf_ne_h0 m hm)
+    rfl rfl rfl
+    (by
+      intro m _
+      have : (("m", CoreVM.uidOf m) : CoreIndex.Key) ≠ ("m", "h0") := by
+        intro e; exact uidOf_ne_h0 m (by simpa using e)
+      have h2 : ¬ ("h0" = CoreVM.uidOf m) := fun e => uidOf_ne_h0 m e.symm
+      simp [exVMRoot2, OMap.lookup, this, h2])
+    uidOf_ne_u
+    { hl := rfl, hsize := by decide, hw := rfl, hm := rfl }
+    (by intro lp hlp; simp at hlp; rcases hlp with rfl | rfl <;> exact ⟨rfl, by decide⟩)
+    (by decide) rfl (by decide) es
 
 end NemoVerif.C07
